@@ -131,10 +131,11 @@ package signedexchange
 //@   ensures result <==> (u1.Scheme == u2.Scheme && u1.Host == u2.Host)
 //@   assigns nothing
 
+//@ def noBannedHeaders(e *Exchange) bool = ((forall k string :: has(e.RequestHeaders, k) ==> !(strLower(k) == "authorization" || strLower(k) == "cookie" || strLower(k) == "cookie2" || strLower(k) == "proxy-authorization" || strLower(k) == "sec-websocket-key")) && (forall k string :: has(e.ResponseHeaders, k) ==> !has(uncachedHeadersSet, strLower(k))))
 //@ func verifyHeaders
 //@   props C09
 //@   requires e != nil
-//@   ensures[iff-none-banned] result == nil <==> ((forall k string :: has(e.RequestHeaders, k) ==> !(strLower(k) == "authorization" || strLower(k) == "cookie" || strLower(k) == "cookie2" || strLower(k) == "proxy-authorization" || strLower(k) == "sec-websocket-key")) && (forall k string :: has(e.ResponseHeaders, k) ==> !has(uncachedHeadersSet, strLower(k))))
+//@   ensures[iff-none-banned] result == nil <==> noBannedHeaders(e)
 //@   assigns nothing
 //@   loop 0:
 //@     invariant forall k string :: visited(k) ==> has(e.RequestHeaders, k) && !(strLower(k) == "authorization" || strLower(k) == "cookie" || strLower(k) == "cookie2" || strLower(k) == "proxy-authorization" || strLower(k) == "sec-websocket-key")
@@ -153,11 +154,12 @@ package signedexchange
 // IsCacheable (b3): exactly the RFC 7234 section 3 predicate over the status
 // code, the Cache-Control directives found and the Expires header.
 //@ uf statusText(int) string
+//@ def cacheableB3(e *Exchange) bool = (statusText(e.ResponseStatus) != "" && !has(parseCacheControlDirectives(hdrGet(e.ResponseHeaders, "Cache-Control")), "no-store") && !has(parseCacheControlDirectives(hdrGet(e.ResponseHeaders, "Cache-Control")), "private") && (hdrGet(e.ResponseHeaders, "Expires") != "" || has(parseCacheControlDirectives(hdrGet(e.ResponseHeaders, "Cache-Control")), "max-age") || has(parseCacheControlDirectives(hdrGet(e.ResponseHeaders, "Cache-Control")), "s-maxage") || e.ResponseStatus == 200 || e.ResponseStatus == 203 || e.ResponseStatus == 204 || e.ResponseStatus == 206 || e.ResponseStatus == 300 || e.ResponseStatus == 301 || e.ResponseStatus == 404 || e.ResponseStatus == 405 || e.ResponseStatus == 410 || e.ResponseStatus == 414 || e.ResponseStatus == 501 || has(parseCacheControlDirectives(hdrGet(e.ResponseHeaders, "Cache-Control")), "public")))
 //@ func (*Exchange).IsCacheable
 //@   props C09
 //@   may_panic
 //@   requires l != nil
-//@   ensures[rfc7234-section-3] result <==> (statusText(e.ResponseStatus) != "" && !has(parseCacheControlDirectives(hdrGet(e.ResponseHeaders, "Cache-Control")), "no-store") && !has(parseCacheControlDirectives(hdrGet(e.ResponseHeaders, "Cache-Control")), "private") && (hdrGet(e.ResponseHeaders, "Expires") != "" || has(parseCacheControlDirectives(hdrGet(e.ResponseHeaders, "Cache-Control")), "max-age") || has(parseCacheControlDirectives(hdrGet(e.ResponseHeaders, "Cache-Control")), "s-maxage") || e.ResponseStatus == 200 || e.ResponseStatus == 203 || e.ResponseStatus == 204 || e.ResponseStatus == 206 || e.ResponseStatus == 300 || e.ResponseStatus == 301 || e.ResponseStatus == 404 || e.ResponseStatus == 405 || e.ResponseStatus == 410 || e.ResponseStatus == 414 || e.ResponseStatus == 501 || has(parseCacheControlDirectives(hdrGet(e.ResponseHeaders, "Cache-Control")), "public")))
+//@   ensures[rfc7234-section-3] result <==> cacheableB3(e)
 //@   assigns nothing
 
 // ---- the signed message (C08, C01) --------------------------------------------
@@ -169,6 +171,7 @@ package signedexchange
 // byte string serializeSignedMessage returned for exactly these arguments
 // (definitional: introduced by the witness clause below, constrained by
 // nothing else).
+//@ def msgBe64(d []byte, o int, v int64) bool = d[o] == byte(v >> 56) && d[o+1] == byte(v >> 48) && d[o+2] == byte(v >> 40) && d[o+3] == byte(v >> 32) && d[o+4] == byte(v >> 24) && d[o+5] == byte(v >> 16) && d[o+6] == byte(v >> 8) && d[o+7] == byte(v)
 //@ uf signedMsgOf(bytes, *Exchange, bytes, bool, string, int64, int64) bool
 //@ func serializeSignedMessage
 //@   props C08 C01 C18
@@ -180,6 +183,11 @@ package signedexchange
 //@   ensures[b2b3-cert-flag] err == nil && e.Version != version.Version1b1 ==> (certSha256 != nil ==> msg[83] == 32) && (certSha256 == nil ==> msg[83] == 0)
 //@   ensures[b2b3-validity-url-length-with-cert] err == nil && e.Version != version.Version1b1 && certSha256 != nil ==> len(msg) >= 124 + len(validityUrl) && msg[123] == byte(len(validityUrl))
 //@   ensures[b2b3-validity-url-length-without-cert] err == nil && e.Version != version.Version1b1 && certSha256 == nil ==> len(msg) >= 92 + len(validityUrl) && msg[91] == byte(len(validityUrl))
+//@   ensures[b2b3-validity-url-bytes] err == nil && e.Version != version.Version1b1 && certSha256 != nil ==> forall i int :: 0 <= i && i < len(validityUrl) ==> msg[124 + i] == validityUrl[i]
+//@   ensures[b2b3-date] err == nil && e.Version != version.Version1b1 && certSha256 != nil && date >= 0 && expires >= 0 ==> len(msg) >= 148 + len(validityUrl) + len(e.RequestURI) && msgBe64(msg, 124 + len(validityUrl), date)
+//@   ensures[b2b3-expires] err == nil && e.Version != version.Version1b1 && certSha256 != nil && date >= 0 && expires >= 0 ==> len(msg) >= 148 + len(validityUrl) + len(e.RequestURI) && msgBe64(msg, 132 + len(validityUrl), expires)
+//@   ensures[b2b3-request-url] err == nil && e.Version != version.Version1b1 && certSha256 != nil && date >= 0 && expires >= 0 ==> msgBe64(msg, 140 + len(validityUrl), int64(len(e.RequestURI))) && (forall i int :: 0 <= i && i < len(e.RequestURI) ==> msg[148 + len(validityUrl) + i] == e.RequestURI[i])
+//@   ensures[b2b3-cert-bytes] err == nil && e.Version != version.Version1b1 && certSha256 != nil ==> forall i int :: 0 <= i && i < 32 ==> msg[84 + i] == certSha256[i]
 //@   assigns nothing
 //@   loop 0:
 //@     invariant 0 <= i && i <= 64 && spos(buf) == 0 && send(buf) == i && accepted(buf) == i && !failed(buf)
@@ -207,14 +215,47 @@ package signedexchange
 // public key over the message built for exactly (e, that hash, the
 // signature's validity-url, date and expires), b3 has a Content-Type, and the
 // payload check passed.
+// The certificate fetcher is the caller's callback (network, cache, file):
+// assumed not to modify the exchange or the signature being verified.
+//@ iface github.com/WICG/webpackage/go/signedexchange.CertFetcher.call
+//@   params (url)
+//@   returns (bs, err)
+//@   assigns nothing
+
 //@ func verifySignature
 //@   props C01 C09
 //@   may_panic
 //@   returns (certs, payload, err)
-//@   requires e != nil && signature != nil
+//@   requires e != nil && signature != nil && fetch != nil
+//@   assigns nothing
 //@   ensures[chain] err == nil ==> len(certs) >= 1 && certs[0] != nil && certs[0].Cert != nil
 //@   ensures[time-window] err == nil ==> signature.Expires - signature.Date <= 604800 && signature.Date <= unixOf(verificationTime) && (unixOf(verificationTime) < signature.Expires || (unixOf(verificationTime) == signature.Expires && tnsec(verificationTime) == 0))
 //@   ensures[cert-sha256-is-main-cert] err == nil ==> len(signature.CertSha256) == 32 && bytes(signature.CertSha256) == sha256of(cat(emptyBytes(), bytes(certs[0].Cert.Raw)))
 //@   ensures[signature-over-this-exchange] err == nil ==> exists m []byte :: {bytes(m)} signedMsgOf(bytes(m), e, bytes(signature.CertSha256), true, signature.ValidityUrl, signature.Date, signature.Expires) && sigValid(certs[0].Cert.PublicKey, bytes(m), bytes(signature.Sig))
 //@   ensures[b3-content-type] err == nil && e.Version != version.Version1b1 && e.Version != version.Version1b2 ==> hdrGet(e.ResponseHeaders, "Content-Type") != ""
 //@   ensures[payload-checked] err == nil ==> (e.Version == version.Version1b1 ==> signature.Integrity == "mi-draft2") && (e.Version != version.Version1b1 ==> signature.Integrity == "digest/mi-sha256-03")
+
+// extractSignatureFields: a parsed signature object or an error.
+//@ func extractSignatureFields
+//@   props C01
+//@   may_panic
+//@   returns (sig, err)
+//@   ensures err == nil ==> sig != nil
+//@   assigns nothing
+
+// signatureAccepted(s, e, t): what must hold of the signature on whose
+// strength Verify says "valid".
+//@ def signatureAccepted(s *Signature, e *Exchange, t time.Time) bool = s != nil && urlScheme(s.ValidityUrl) == urlScheme(e.RequestURI) && urlHost(s.ValidityUrl) == urlHost(e.RequestURI) && s.Expires - s.Date <= 604800 && s.Date <= unixOf(t) && (unixOf(t) < s.Expires || (unixOf(t) == s.Expires && tnsec(t) == 0)) && (exists m []byte, ac *certurl.AugmentedCertificate :: {bytes(m), ac.Cert} ac != nil && ac.Cert != nil && len(s.CertSha256) == 32 && bytes(s.CertSha256) == sha256of(cat(emptyBytes(), bytes(ac.Cert.Raw))) && signedMsgOf(bytes(m), e, bytes(s.CertSha256), true, s.ValidityUrl, s.Date, s.Expires) && sigValid(ac.Cert.PublicKey, bytes(m), bytes(s.Sig)))
+
+// Verify returns "valid" only on the strength of one signature that passed
+// every step, and only if the policy checks of the version passed.
+//@ func (*Exchange).Verify
+//@   props C01 C09
+//@   may_panic
+//@   returns (payload, ok)
+//@   requires l != nil && certFetcher != nil
+//@   ensures[valid-only-with-a-verified-signature] ok ==> exists s *Signature :: {s.Sig} signatureAccepted(s, e, verificationTime)
+//@   ensures[method-b1-b2] ok && (e.Version == version.Version1b1 || e.Version == version.Version1b2) ==> e.RequestMethod == "GET" || e.RequestMethod == "HEAD"
+//@   ensures[cacheable-b3] ok && e.Version != version.Version1b1 && e.Version != version.Version1b2 ==> cacheableB3(e)
+//@   ensures[no-banned-headers] ok ==> noBannedHeaders(e)
+//@   ensures[b3-content-type] ok && e.Version != version.Version1b1 && e.Version != version.Version1b2 ==> hdrGet(e.ResponseHeaders, "Content-Type") != ""
